@@ -1,18 +1,20 @@
 /-
-  C05 - Batch target preserves the program semantics under cmd.exe's rules: SEMANTIC PRESERVATION for the
-  straight-line part of the scalar fragment (`batch_preserves_straight_line_semantics_partial`).
+  C05 - Batch target preserves the program semantics under cmd.exe's rules: SEMANTIC PRESERVATION.
 
-  The full statement of the property quantifies over all accepted programs of the scalar, function, slice and
-  string fragments.  Proved here, for ALL programs made of definitions and assignments (of one variable or simultaneous, through the temporaries `_ma<i>`), `print`
-  and a final `panic`, over ALL integer / boolean / string expressions of the scalar fragment (every nesting,
-  every number of statements): the lines the Batch converter emits for the program, executed by the cmd model
-  `Sem/Cmd` (run-time `!name!` expansion, 32-bit `set /A`, numeric versus string `IF`, the echo routine, `goto :end`
-  with the exit code in `_e`), print what the 32-bit source semantics `Sem/Src32` prints and end the same way.
-  NOT proved (the name says partial): control flow (if / else-if / else, loops, break, continue - their lines are
-  labels, jumps and parenthesised blocks, which `Sem/Cmd` executes with a program counter; model and reference are
-  compared on such programs in every run, see lib/props/c05.py), functions, slices,
-  string operations.  What a theorem cannot reach - that cmd.exe reads the rendered text as the structured lines and
-  executes them as `Sem/Cmd` says - is decided in every run against lib/cmdsim.py, which works on the text.
+  Three theorems about the model of transpiler.go + converters/batch/converter.go, strongest last:
+    * `batch_preserves_straight_line_semantics_partial` - definitions / assignments (single or simultaneous), print, a final
+      panic: the emitted LINES, run one after the other by `Sem/Cmd.runLinesB`, do what the program does;
+    * `batch_preserves_conditional_semantics_partial` - plus if / else-if / else chains and panic anywhere: the emitted lines
+      are `flats` of a block tree (`Sem/CmdTree`) whose execution `ExecBs` does what the program does;
+    * `batch_preserves_scalar_semantics` - the whole scalar fragment: plus `for` loops, `break`, `continue`.
+  Source side: `Sem/Src32` (the reference semantics the property names: 32-bit integers, cmd-neutral alphabet).  Target side:
+  `Sem/Cmd` (run-time `!name!` expansion, 32-bit `set /A` on canonical decimal operands, numeric versus quoted-string `IF`, the echo
+  routine, `goto :end` with the exit code in `_e`) and `Sem/CmdTree` (what the labels, `goto`s and parenthesised blocks of an
+  if-chain or a loop amount to).  All programs of the fragment, every nesting, every number of statements and loop rounds.
+  NOT proved: functions, slices, string operations (the fragments of C02 / C03 on this target), `switch` / `range` (known
+  findings); that cmd.exe reads the rendered text as the structured lines, and runs the line list as the block tree says - the
+  line-level machine `Sem/Cmd.runPC`, lib/cmdsim.py on the text, the tree via `treeOf` and the 32-bit reference are compared on
+  every scalar program of every run (lib/props/c05.py).
 -/
 import TshVerif.Lemmas.SemBStraight
 import TshVerif.Lemmas.SemBCtl
